@@ -1,4 +1,5 @@
 (* Driver for the C06 correspondence: the same connection model and rendering as C03 (the C06
    cases exercise the three timers, the shutdown signal and blocked peers under virtual time). *)
-Require Import AV.Lib.Base AV.Lib.V AV.H1.ConnRec AV.H1.ConnState AV.Run.RunC03.
+Require Import AV.Lib.Base AV.Lib.V AV.H1.ConnRec AV.H1.ConnState.
+Require Export AV.Run.RunC03.
 Definition run_C06 := run_conn.
